@@ -530,6 +530,11 @@ class CircuitWorld(World):
             elif k == "depth":
                 info["depth"] = e.c.depth()
             elif k == "iter":
+                if op.get("np_seed", 0) % 3 == 0:
+                    it = iter(e.c)              # an iteration abandoned after its first element (any(), next(iter(c)), break)
+                    next(it, None)
+                    del it
+                    ctx.probe("C11.iteration_abandoned_early")
                 info["n"] = len([g for g in e.c])
             elif k == "eq":
                 info["eq"] = bool(ents[0].c == ents[1].c)
@@ -633,6 +638,8 @@ class CircuitWorld(World):
 
         # --- op-specific oracles on the legitimately modified circuit / the results ---------------------------------
         seed = op.get("np_seed", 0)
+        if k == "iter" and info.get("n") != len(e.snap):
+            V.append(Violation("C11", "iteration-does-not-yield-every-gate", "iter", {"yielded": info.get("n"), "size": len(e.snap)}))
         if k == "add":
             before, wbefore_add = e.snap, e.meta["width"]
             e.resnap()
